@@ -97,7 +97,9 @@ func main() {
 		}
 		os.Exit(runReplayCmd(os.Args[2], os.Args[3]))
 	default:
-		usage()
+		if !extraCmd(os.Args[1:]) {
+			usage()
+		}
 	}
 }
 
